@@ -57,9 +57,9 @@ RULE = ("A: BFS over operation histories on a population of <= 3 model objects, 
         "grammar x flags x variants, distinct non-trivial = configuration that reached the comparison stage")
 MANIFEST_ENTRY = dict(
     level="model_checking", design="DESIGN.md section 4 / C20",
-    technique="explicit-state BFS over operation histories on a population of model objects vs a per-variant reference state, differential oracle against fresh models built from source, structural alias scan; exhaustive enumeration of a model grammar for the portable round trip",
-    text="For a linear and a non-linear Simultaneous model, a Sequential and a RedVAR, every history of copy / pickle / dill / assign (scalar, per-variant list, std) / alter_num_variants / steady / solve / set_description / estimate operations up to the stated depth (quick 3, thorough 4-5) on a population of up to 3 objects is executed; after every step every object is observed (parameters, steady state, solution matrices, eigenvalues, 4-period simulation, 3-period filter likelihood) and compared with fresh single-variant models, untouched objects must be bit-for-bit unchanged, and no mutable container may be shared between objects or variants. The portable round trip is enumerated over a grammar of 96 programs x 8 flag combinations x 3 variant counts x 2.",
-    note="Trusted: model construction from source, numpy, the 150-line reference state machine in props/c20.py. Not covered: models with user functions in the context, stacked-time simulation, attributes of quantities/equations in the portable form (not in the statement), model views (model[k] shares the variant object by design; recorded, not gated).")
+    technique="explicit-state BFS over operation histories on a population of model objects vs a per-variant reference state, differential oracle against fresh models built from source, bit-exact isolation check, structural alias scan; exhaustive enumeration of a model grammar for the portable round trip",
+    text="For a linear Simultaneous model (lead, measurement equation with shock), a non-linear one (log variable), a Sequential and a RedVAR, every history of copy / pickle / dill / assign (scalar, per-variant list, std) / alter_num_variants(1..3) / steady / solve / set_description / estimate / assignment through model[k] up to depth 3 (quick) or 4-5 (thorough) from 2-4 prepared initial objects on a population of up to 3 objects is executed against the real classes; before and after every step every object is observed (parameters, steady levels and changes, solution matrices T P K Z H D, eigenvalues, a 4-period first-order simulation with an unanticipated and an anticipated shock, a 3-period Kalman likelihood); the acted-on object must equal fresh single-variant models driven to the reference state, clones must be observation-identical to their source, untouched objects bit-for-bit unchanged, and no dict / list / set / ndarray / instance __dict__ may be reachable from two members or two variants. The portable and binary file round trips are enumerated over 96 programs x 8 flag combinations x 3 (quick) or 6 (thorough) variant/steady settings.",
+    note="Trusted: model construction from source (the oracle is differential), numpy, the reference state machine in props/c20.py. Not covered: user functions in the model context, stacked-time simulation, attributes of quantities/equations and steady levels in the portable form (not in the statement), isolation of model views (model[k] shares the variant object by design; recorded, not gated). Known findings: to_portable with a transition shock, from_portable flags, pickle of a Sequential, RedVAR.copy sharing its invariant and cached companion matrix.")
 ASSUMPTIONS = [
     "a model built from source and driven by assign/steady/solve is the specification of what a copy in the same reference state must compute (differential oracle)",
     "the non-linear steady state is unique, so steady() from different starting points agrees to 1e-8",
@@ -173,6 +173,7 @@ class SimKind:
         self.name, self.src, self.kwargs, self.second = name, src, kwargs, second
         self.solve_uses_steady = solve_uses_steady
         self.default_std = 1 if kwargs.get("linear") else 0.01
+        self.flags = (bool(kwargs.get("linear")), bool(kwargs.get("flat")), bool(kwargs.get("deterministic")))
 
     # -- construction -----------------------------------------------------
     def build(self):
@@ -199,8 +200,6 @@ class SimKind:
             ops += [("descr", "d1")]
         if not quick:
             ops += [("assign", "c", c[1]), ("assign", "c", [c[0], c[1], c[2], c[1]])]
-            if self.name == "lin":
-                ops += [("assign", "rho", r[0]), ("assign", "std_shk_x", [s, self.default_std])]
         # the first-order solution of a non-linear model needs a steady state to expand around
         if not self.solve_uses_steady or all(v[3] is not None for v in obj[2]):
             ops.append(("solve",))
@@ -313,7 +312,8 @@ class SimKind:
                 d["eig"] = np.sort_complex(np.array(eig[k], dtype=complex))
                 d["sim"] = np.column_stack([a[:, k] for a in data])
                 d["nll"] = float(info[k]["neg_log_likelihood"])
-        return {"nv": nv, "descr": m.get_description(), "v": vs}
+        return {"nv": nv, "descr": m.get_description(), "v": vs,
+                "flags": (bool(m.is_linear), bool(m.is_flat), bool(m.is_deterministic))}
 
     def view(self, m, k):
         return m[k]
@@ -635,7 +635,7 @@ class Machine:
         return out
 
     # ---- one transition ---------------------------------------------------
-    def step(self, hist, op, res, ctx, collect=None):
+    def step(self, hist, op, res, ctx):
         op = _tup(op)
         hist = [_tup(h) for h in hist]
         kind, kn = self.kind, self.kn
@@ -686,8 +686,11 @@ class Machine:
         # ---- (a)+(d) acted-on object equals fresh single-variant models ----
         ref_obj = pop1[acted]
         got = after[acted]
+        exp_flags = getattr(kind, "flags", None)
         if got["nv"] != len(ref_obj[2]):
             bad("num_variants", "got %d expected %d" % (got["nv"], len(ref_obj[2])))
+        elif got.get("flags") != exp_flags:
+            bad("flags", "got %r expected %r" % (got.get("flags"), exp_flags))
         elif got["descr"] != ref_obj[1]:
             bad("description", "got %r expected %r" % (got["descr"], ref_obj[1]))
         else:
@@ -703,8 +706,8 @@ class Machine:
             s, t = after[op[1]], after[op[2]]
             if objs[op[2]] is objs[op[1]]:
                 bad("clone_identity", "the clone is the same object")
-            if s["nv"] != t["nv"] or s["descr"] != t["descr"]:
-                bad("clone", "number of variants / description differ", field="nv_descr")
+            if s["nv"] != t["nv"] or s["descr"] != t["descr"] or s.get("flags") != t.get("flags"):
+                bad("clone", "number of variants / description / flags differ", field="nv_descr_flags")
             else:
                 for k in range(s["nv"]):
                     d = diff_fields(t["v"][k], s["v"][k], exact=True)
@@ -723,6 +726,8 @@ class Machine:
             elif a["descr"] != b["descr"]:
                 bad("isolation", "slot %d changed its description: %r -> %r" % (i, b["descr"], a["descr"]),
                     field="descr", prov=pop1[i][0])
+            elif a.get("flags") != b.get("flags"):
+                bad("isolation", "slot %d changed its flags" % i, field="flags", prov=pop1[i][0])
             else:
                 for k in range(a["nv"]):
                     d = diff_fields(a["v"][k], b["v"][k], exact=True)
@@ -764,7 +769,8 @@ class Machine:
         # ---- views show their variant -------------------------------------------------
         try:
             for i in ([acted] if ctx.quick else live):
-                full = (not ctx.quick) and i == acted
+                # thorough: the views of a freshly cloned / re-sized object are also simulated and filtered
+                full = (not ctx.quick) and i == acted and (op[0] in CLONES or op[0] == "alter")
                 for k in range(after[i]["nv"]):
                     vw = kind.observe(kind.view(objs[i], k), behaviour=full)
                     if vw["nv"] != 1:
@@ -777,8 +783,6 @@ class Machine:
                         bad("view", "model[%d] of slot %d differs from variant %d in %s" % (k, i, k, d), fatal=False, field=d[0])
         except Exception as e:
             bad("view", "%s: %s" % (type(e).__name__, str(e)[:300]), fatal=False, error=type(e).__name__)
-        if collect is not None:
-            collect.update(after=after, objs=objs, pop1=pop1)
         if bad_state[0]:
             return None
         # ---- bookkeeping ------------------------------------------------------------------
@@ -1042,8 +1046,13 @@ def run(ctx, total, info):
     info["max_depth"] = min([v["max_depth"] for v in per_kind.values()] or [0])
     info["per_kind"] = per_kind
     tb = tables(ctx.seed)
-    info["alphabet"] = {kn: [list(map(str, o)) for o in KINDS[kn].own_ops(("src", "", (KINDS[kn].base_variant(tb),)), tb, ctx.quick)]
-                        + [[c, "i", "first free slot"] for c in CLONES] for kn in KINDS}
+    info["alphabet"] = {}
+    for kn in KINDS:
+        own = [list(map(str, o)) for o in KINDS[kn].own_ops(("src", "", (KINDS[kn].base_variant(tb),)), tb, ctx.quick)]
+        if kn == "nl":
+            own.append(["solve (once every variant has a steady state)"])
+        info["alphabet"][kn] = own + [[c, "i -> first free slot"] for c in CLONES]
+    info["initial_objects"] = {kn: [[list(map(str, o)) for o in seq] for seq in KINDS[kn].inits(tb, ctx.quick)] for kn in KINDS}
     info["population_max_objects"] = MAX_OBJECTS[ctx.tier]
     # ---- Part B ---------------------------------------------------------------
     cfgs = []
@@ -1060,17 +1069,18 @@ def run(ctx, total, info):
     info["portable_configurations"] = len(cfgs)
     info["exhaustive"] = (not only) and all(per_kind[k]["max_depth"] == DEPTH[ctx.tier][k] for k in per_kind)
     c = total.counters
-    q = ctx.quick
+    # a thorough run stopped by --cap-min reports exhaustive=False and is held to the quick floors only
+    q = ctx.quick or not info["exhaustive"]
     info["floors"] = {
-        "transitions_lin": (c["transitions_lin"], 3000 if q else 60000),
-        "transitions_nl": (c["transitions_nl"], 1500 if q else 40000),
-        "transitions_seq": (c["transitions_seq"], 1000 if q else 15000),
-        "transitions_var": (c["transitions_var"], 1200 if q else 40000),
-        "states": (states, 3000 if q else 60000),
-        "clones_checked": (sum(c["clones_checked_" + h] for h in CLONES), 1300 if q else 20000),
-        "alias_scans_between_members": (c["alias_scans_between_members"], 2400 if q else 30000),
-        "isolation_checks": (c["isolation_checks"], 7000 if q else 150000),
-        "view_assignments": (c["observed_view_assignment_writes_through"] + c["observed_view_assignment_is_detached"], 150),
+        "transitions_lin": (c["transitions_lin"], 3000 if q else 70000),
+        "transitions_nl": (c["transitions_nl"], 1500 if q else 65000),
+        "transitions_seq": (c["transitions_seq"], 1000 if q else 16000),
+        "transitions_var": (c["transitions_var"], 1200 if q else 45000),
+        "states": (states, 3000 if q else 65000),
+        "clones_checked": (sum(c["clones_checked_" + h] for h in CLONES), 1300 if q else 27000),
+        "alias_scans_between_members": (c["alias_scans_between_members"], 2400 if q else 54000),
+        "isolation_checks": (c["isolation_checks"], 7000 if q else 290000),
+        "view_assignments": (c["observed_view_assignment_writes_through"] + c["observed_view_assignment_is_detached"], 150 if q else 3500),
         "portable_configurations_evaluated": (total.evaluations - ev0, 1100 if q else 2300),
         "portable_round_trips_compared": (c["observed_levels_preserved"] + sum(v for k, v in c.items() if k.startswith("observed_levels_not")), 1100 if q else 2300),
         "binary_file_round_trips": (c["binary_file_round_trips"], 1100 if q else 6900),
